@@ -102,7 +102,12 @@ pub const BAD_LOCATIONS: [&str; 5] = ["cat", "../cat/pkg", "/cat/pkg", "a/b/c", 
 // ------------------------------------------------------------------ generator
 
 fn scalar_value() -> BoxedStrategy<String> {
-    prop::sample::select(vec!["", "yes", "no", "a=b", "x y z", "  padded  ", "100", "é", "= lead", "user-destdir", "reason: broken"]).prop_map(String::from).boxed()
+    prop_oneof![
+        3 => prop::sample::select(vec!["", "yes", "no", "a=b", "x y z", "  padded  ", "100", "é", "= lead", "user-destdir", "reason: broken"]).prop_map(String::from),
+        1 => "[ -~]{0,16}",
+        1 => "[ a-cé=:\t]{0,8}",
+    ]
+    .boxed()
 }
 
 fn key_line(with_faults: bool) -> BoxedStrategy<String> {
